@@ -1,7 +1,8 @@
 (* Corr/C08.v — correspondence glue: runs Model/ConnState.v on a history that the Go harness drove through the real
    connstate.Store / SessionManager instances of several nodes over one shared storage, and compares FindClientNode
    for every client, as answered on every node, after EVERY event.
-   case value: [ variant [guard; refresh_idx; hb; ptr; cas (mode 2 only: index test-and-write is one CompareAndSwap); scas (mode 3 only: the client-state service uses CompareAndSwap)] ; backend [ptr; incl] ; ttl ; mode (0 store | 1 session) ;
+   case value: [ variant [guard; refresh_idx; hb; ptr; cas (mode 2 only: index test-and-write is one CompareAndSwap); scas (mode 3 only: the client-state service uses CompareAndSwap); tomb_ms (0 = a tombstone does not block the heartbeat's rebuild;
+                 otherwise the tombstone's ttl in ms, during which the rebuild is blocked)] ; backend [ptr; incl] ; ttl ; mode (0 store | 1 session) ;
                  clients [x ...] ; ops [[code; a; b; c; d] ...] ; obs [ per op: [ per node: [ per client: [kind; n; c] ] ] ] ]
    kind: 0 = not found / expired, 1 = found (n, c), 2 = any other error.  Tick durations are in ms.
    Session code 7 (StaleSweep n c: the node's periodic sweep finds control connection c silent beyond the heartbeat
@@ -60,33 +61,34 @@ Definition enc_fres_rs (f : fres) : tval :=
   match f with Found n c => VL [VN 1; VN n; VN c] | Absent => VL [VN 0; VN 0; VN 0] | FErr => VL [VN 2; VN 0; VN 0] end.
 Definition rs_of (o : option (N * N)) : fres := match o with Some (n, c) => Found n c | None => Absent end.
 
-Definition sess_rs_step (v : variant) (b : backend) (ttl : N) (w : world) (rs : rstate) (op : tval) : rstate :=
+Definition sess_rs_step (tomb_ms : N) (v : variant) (b : backend) (ttl : N) (w : world) (st : rstate * (N -> option N)) (op : tval)
+  : rstate * (N -> option N) :=
   if vn (vnth 0 op) =? 7
   then match w_ctl w (vn (vnth 1 op)) (vn (vnth 2 op)) with
-       | Some _ => rs_event false w rs (Close (vn (vnth 1 op)) (vn (vnth 2 op)))
-       | None => rs
+       | Some _ => rs_event_tomb tomb_ms w st (Close (vn (vnth 1 op)) (vn (vnth 2 op)))
+       | None => st
        end
-  else rs_event false w rs (dec_event op).
+  else rs_event_tomb tomb_ms w st (dec_event op).
 
-Fixpoint check_session_rs (v : variant) (b : backend) (ttl : N) (clients : list N) (w : world) (rs : rstate)
-         (ops obs : list tval) : bool :=
+Fixpoint check_session_rs (tomb_ms : N) (v : variant) (b : backend) (ttl : N) (clients : list N) (w : world)
+         (st : rstate * (N -> option N)) (ops obs : list tval) : bool :=
   match ops, obs with
   | [], [] => true
   | op :: ops', o :: obs' =>
-      let rs' := sess_rs_step v b ttl w rs op in
+      let st' := sess_rs_step tomb_ms v b ttl w st op in
       let w' := sess_step v b ttl w op in
-      obs_ok (map (fun x => rs_of (rs' x)) clients) o && check_session_rs v b ttl clients w' rs' ops' obs'
+      obs_ok (map (fun x => rs_of (fst st' x)) clients) o && check_session_rs tomb_ms v b ttl clients w' st' ops' obs'
   | _, _ => false
   end.
 
-Fixpoint predict_session_rs (v : variant) (b : backend) (ttl : N) (clients : list N) (w : world) (rs : rstate)
-         (ops : list tval) : list tval :=
+Fixpoint predict_session_rs (tomb_ms : N) (v : variant) (b : backend) (ttl : N) (clients : list N) (w : world)
+         (st : rstate * (N -> option N)) (ops : list tval) : list tval :=
   match ops with
   | [] => []
   | op :: ops' =>
-      let rs' := sess_rs_step v b ttl w rs op in
+      let st' := sess_rs_step tomb_ms v b ttl w st op in
       let w' := sess_step v b ttl w op in
-      VL (map (fun x => enc_fres_rs (rs_of (rs' x))) clients) :: predict_session_rs v b ttl clients w' rs' ops'
+      VL (map (fun x => enc_fres_rs (rs_of (fst st' x))) clients) :: predict_session_rs tomb_ms v b ttl clients w' st' ops'
   end.
 
 Fixpoint check_session (v : variant) (b : backend) (ttl : N) (clients : list N) (w : world) (ops obs : list tval) : bool :=
@@ -167,17 +169,17 @@ Definition dec_rprog (v : tval) : rprog :=
   | 6 => RDisc x n c 0
   | _ => RDone
   end.
-Fixpoint rseq_fuel (k : nat) (cas : bool) (p : rprog) (sh : rshared) : rshared :=
+Fixpoint rseq_fuel (k : nat) (cas rot : bool) (p : rprog) (sh : rshared) : rshared :=
   match k with
   | O => sh
-  | S k' => let '(p', sh') := rstep cas p sh in rseq_fuel k' cas p' sh'
+  | S k' => let '(p', sh') := rstep cas rot p sh in rseq_fuel k' cas rot p' sh'
   end.
-Definition rseq (cas : bool) (sh : rshared) (p : rprog) : rshared := rseq_fuel 8 cas p sh.
-Definition state_final (cas : bool) (ops : tval) : rshared :=
-  let sh0 := fold_left (rseq cas) (map dec_rprog (vl (vnth 0 ops))) rsh_empty in
-  fst (rrun cas (sh0, map dec_rprog (vl (vnth 1 ops))) (map vnat (vl (vnth 2 ops)))).
-Definition check_state_conc (cas : bool) (clients : list N) (ops obs : tval) : bool :=
-  let sh := state_final cas ops in
+Definition rseq (cas rot : bool) (sh : rshared) (p : rprog) : rshared := rseq_fuel 9 cas rot p sh.
+Definition state_final (cas rot : bool) (ops : tval) : rshared :=
+  let sh0 := fold_left (rseq cas rot) (map dec_rprog (vl (vnth 0 ops))) rsh_empty in
+  fst (rrun cas rot (sh0, map dec_rprog (vl (vnth 1 ops))) (map vnat (vl (vnth 2 ops)))).
+Definition check_state_conc (cas rot : bool) (clients : list N) (ops obs : tval) : bool :=
+  let sh := state_final cas rot ops in
   forallb (fun node_obs => all2 fres_eqb (map (fun x => rs_of (rloc sh x)) clients) (vl node_obs)) (vl obs).
 
 Definition check (c : tval) : bool :=
@@ -185,14 +187,14 @@ Definition check (c : tval) : bool :=
   let b := dec_backend (vnth 1 c) in
   let ttl := vn (vnth 2 c) in
   let clients := map vn (vl (vnth 4 c)) in
-  if vn (vnth 3 c) =? 3 then check_state_conc (vbool (vnth 5 (vnth 0 c))) clients (vnth 5 c) (vnth 6 c) else
+  if vn (vnth 3 c) =? 3 then check_state_conc (vbool (vnth 5 (vnth 0 c))) (vn (vnth 6 (vnth 0 c)) =? 0) clients (vnth 5 c) (vnth 6 c) else
   if vn (vnth 3 c) =? 2 then check_conc (vbool (vnth 4 (vnth 0 c))) clients (vnth 5 c) (vnth 6 c) else
   if vn (vnth 3 c) =? 0
   then check_store v b ttl clients (0, empty_store) (vl (vnth 5 c)) (vl (vnth 6 c))
   else check_session v b ttl clients init (vl (vnth 5 c)) (vl (vnth 6 c))
        && match vl (vnth 7 c) with
           | [] => true
-          | rsobs => check_session_rs v b ttl clients init rs_empty (vl (vnth 5 c)) rsobs
+          | rsobs => check_session_rs (vn (vnth 6 (vnth 0 c))) v b ttl clients init (rs_empty, fun _ => None) (vl (vnth 5 c)) rsobs
           end.
 
 Definition enc_fres (f : fres) : tval :=
@@ -219,9 +221,9 @@ Definition predict (c : tval) : tval :=
   let b := dec_backend (vnth 1 c) in
   let ttl := vn (vnth 2 c) in
   let clients := map vn (vl (vnth 4 c)) in
-  if vn (vnth 3 c) =? 3 then VL (map (fun x => enc_fres_rs (rs_of (rloc (state_final (vbool (vnth 5 (vnth 0 c))) (vnth 5 c)) x))) clients) else
+  if vn (vnth 3 c) =? 3 then VL (map (fun x => enc_fres_rs (rs_of (rloc (state_final (vbool (vnth 5 (vnth 0 c))) (vn (vnth 6 (vnth 0 c)) =? 0) (vnth 5 c)) x))) clients) else
   if vn (vnth 3 c) =? 2 then predict_conc (vbool (vnth 4 (vnth 0 c))) clients (vnth 5 c) else
   if vn (vnth 3 c) =? 0
   then VL (predict_store v b ttl clients (0, empty_store) (vl (vnth 5 c)))
   else VL [VL (predict_session v b ttl clients init (vl (vnth 5 c)));
-           VL (predict_session_rs v b ttl clients init rs_empty (vl (vnth 5 c)))].
+           VL (predict_session_rs (vn (vnth 6 (vnth 0 c))) v b ttl clients init (rs_empty, fun _ => None) (vl (vnth 5 c)))].
